@@ -11,6 +11,7 @@ import (
 	"strings"
 	"time"
 
+	kgzip "github.com/klauspost/compress/gzip"
 	gowarc "github.com/nlnwa/gowarc/v2"
 	"github.com/nlnwa/whatwg-url/url"
 )
@@ -183,17 +184,32 @@ func (t *oracleTab) addContent(content []byte) {
 	}
 }
 
-// oraclesForStream computes the table for an input to Unmarshal.
-func oraclesForStream(data []byte, syn int) string {
-	t := &oracleTab{}
-	// locate the header section the way the implementation does (only to find WHICH values to ask about)
+// gunzipAt decodes ONE gzip member starting at data[p:] the way gowarc reads it (klauspost gzip, Multistream(false)).
+// status: ok | bad (error after delivering content) | header error class
+func gunzipAt(data []byte) (status string, content []byte, consumed int) {
+	src := bytes.NewReader(data)
+	br := bufio.NewReaderSize(src, 16)
+	zr, err := kgzip.NewReader(br)
+	if err != nil {
+		return gowarc.VerifClassify(err), nil, 0
+	}
+	zr.Multistream(false)
+	content, err = io.ReadAll(zr)
+	consumed = len(data) - (br.Buffered() + src.Len())
+	if err != nil {
+		return "bad", content, consumed
+	}
+	return "ok", content, consumed
+}
+
+func (t *oracleTab) scanPlain(data []byte, syn int) {
 	start := bytes.Index(data, []byte("WARC/"))
 	if start < 0 {
-		return "-"
+		return
 	}
 	nl := bytes.IndexByte(data[start:], '\n')
 	if nl < 0 {
-		return "-"
+		return
 	}
 	hdrStart := start + nl + 1
 	for _, s := range []int{syn, 0} {
@@ -216,6 +232,25 @@ func oraclesForStream(data []byte, syn int) string {
 		// the http repair changes Content-Length by 2
 		if cl >= 0 && cl+2 <= int64(len(data[len(data)-rest:])) {
 			t.addContent(data[len(data)-rest:][:cl+2])
+		}
+	}
+}
+
+// oraclesForStream computes the table for an input to Unmarshal: header values and HTTP heads the model may ask about
+// (located with gowarc's own tokenizer — only to find WHICH values to ask about), and the gzip codec's verdict at every
+// position where a member could be opened.
+func oraclesForStream(data []byte, syn int) string {
+	t := &oracleTab{}
+	t.scanPlain(data, syn)
+	n := 0
+	for p := 0; p+1 < len(data) && n < 6; p++ {
+		if data[p] == 0x1f && data[p+1] == 0x8b {
+			n++
+			st, content, consumed := gunzipAt(data[p:])
+			t.out = append(t.out, fmt.Sprintf("z:%d:%s:%d:%s", p, st, consumed, hx(content)))
+			if content != nil {
+				t.scanPlain(content, syn)
+			}
 		}
 	}
 	return t.String()
